@@ -198,6 +198,25 @@ func (pb *PrimaryBlock) UnmarshalCbor(r io.Reader) error {
 		pb.CRCType = CRCType(crcT)
 	}
 
+	// The CRC type must be known and the array length has to match the announced content: two more elements for
+	// a fragment's offset and total length, one more for the CRC field.
+	switch pb.CRCType {
+	case CRCNo, CRC16, CRC32:
+	default:
+		return fmt.Errorf("unknown CRC type %d", pb.CRCType)
+	}
+	expectedLen := uint64(8)
+	if pb.HasFragmentation() {
+		expectedLen += 2
+	}
+	if pb.HasCRC() {
+		expectedLen += 1
+	}
+	if blockLen != expectedLen {
+		return fmt.Errorf("array of %d elements does not match the %d elements indicated by bundle control flags and CRC type",
+			blockLen, expectedLen)
+	}
+
 	eids := []*EndpointID{&pb.Destination, &pb.SourceNode, &pb.ReportTo}
 	for _, eid := range eids {
 		if err := cboring.Unmarshal(eid, r); err != nil {
